@@ -19,4 +19,4 @@ CHECK = {'level': 'exploration',
               'thorough': {'workers': 8, 'cases': 30000, 'size': 100}},
              {'src': 'fuzz/fuzz_parse.cpp', 'kind': 'fuzz', 'replay_engine': 'pbt/C03_struct.cpp', 'seed_dirs': ['{REPO}/test-data'],
               'quick': {'workers': 6, 'cases': 2500, 'max_len': 8192, 'timeout': 1500},
-              'thorough': {'workers': 8, 'cases': 150000, 'max_len': 65536, 'timeout': 14000}}]}
+              'thorough': {'workers': 8, 'cases': 50000, 'max_len': 16384, 'timeout': 7000}}]}
